@@ -15,6 +15,9 @@ pub enum Kind {
     Select,
     /// preemption at a hooked point (answer k>0 = run the k-th runnable task nested)
     Point,
+    /// the task stalls at a hooked point while every other task runs until nothing is runnable (answer 1 = stall):
+    /// on the multi-threaded runtime a worker thread can be descheduled for arbitrarily long between two steps
+    Stall,
     /// harness-level data choice (operation, input, fault, abort instant): cost 0
     Data,
 }
@@ -79,6 +82,7 @@ pub struct Shared {
     pub frozen: bool,
     /// preemption points enabled at all
     pub points_on: bool,
+    pub stalls_on: bool,
     pub trace: Vec<(u8, u32)>,
     pub panics: Vec<String>,
     pub diverged: Option<String>,
@@ -105,6 +109,7 @@ impl Shared {
             caps,
             frozen: false,
             points_on: true,
+            stalls_on: true,
             trace: vec![],
             panics: vec![],
             diverged: None,
@@ -297,13 +302,42 @@ impl Hooks for Ctl {
                 }
                 let k = s.pick(Kind::Point, site, r.len() + 1);
                 if k == 0 {
+                    if s.stalls_on && s.depth == 0 && s.pick(Kind::Stall, site, 2) == 1 {
+                        None
+                    } else {
+                        return;
+                    }
+                } else {
+                    s.depth += 1;
+                    Some(r[k - 1])
+                }
+            };
+            match id {
+                Some(id) => {
+                    step_task(&self.0, id);
+                    self.0.lock().unwrap().depth -= 1;
+                }
+                None => {
+                    // stall: everybody else runs, in the default order and without further choices, until nothing is
+                    // runnable (tasks that wait for this one stay blocked); then this task carries on
+                    let was = {
+                        let mut s = self.0.lock().unwrap();
+                        s.depth += 1;
+                        std::mem::replace(&mut s.frozen, true)
+                    };
+                    for _ in 0..2_000 {
+                        let next = self.0.lock().unwrap().runnable_sorted().first().copied();
+                        match next {
+                            Some(id) => step_task(&self.0, id),
+                            None => break,
+                        }
+                    }
+                    let mut s = self.0.lock().unwrap();
+                    s.depth -= 1;
+                    s.frozen = was;
                     return;
                 }
-                s.depth += 1;
-                r[k - 1]
-            };
-            step_task(&self.0, id);
-            self.0.lock().unwrap().depth -= 1;
+            }
         }
     }
 
